@@ -589,6 +589,22 @@ Proof.
   destruct (fa <? 0) eqn:Hn; [exfalso; lia|reflexivity].
 Qed.
 
+(* the call that follows a recommendation is decided by the interval and the lead alone: it raises the next one
+   exactly when it is more than RECOMMENDATION_INTERVAL frames later and the lead is still >= MIN_RECOMMENDATION *)
+Lemma gate_next_call : forall calls next pre cf1 fa1 k1 cf fa o post,
+  gate_run next calls = pre ++ (cf1, fa1, Some k1) :: (cf, fa, o) :: post ->
+  (o = Some fa /\ cf1 + RECOMMENDATION_INTERVAL < cf /\ MIN_RECOMMENDATION <= fa) \/
+  (o = None /\ ~ (cf1 + RECOMMENDATION_INTERVAL < cf /\ MIN_RECOMMENDATION <= fa)).
+Proof.
+  intros calls next pre cf1 fa1 k1 cf fa o post H.
+  destruct (gate_run_split _ _ _ _ _ _ _ H) as (n' & rest & Hp & Hn).
+  specialize (Hn k1 eq_refl). subst n'.
+  destruct rest as [|[c f] r]; cbn [gate_run] in Hp; [discriminate|].
+  destruct (gate_step (cf1 + RECOMMENDATION_INTERVAL) c f) as [[n'' o']| |] eqn:E; [|discriminate|discriminate].
+  inversion Hp; subst.
+  destruct (gate_step_spec _ _ _ _ _ E) as [(H0 & H1 & H2 & _)|(H0 & _ & H2)]; [left|right]; repeat split; assumption.
+Qed.
+
 Definition gate_ex_calls : list (Z * Z) :=
   [(1, 0); (2, 3); (3, 5); (40, 7); (62, 2); (63, 4); (64, 4); (123, 2); (124, 9)].
 Lemma gate_ex_ok : gate_run gate_init gate_ex_calls =
